@@ -73,6 +73,7 @@ def generate(tape, tier="quick"):
     else:
         smask = tape.weighted([("none", 5), ("partial", 4)])
     return {"engine": "R", "method": method, "src": src, "dst": dst, "rel": rel, "smask": smask,
+            "ctor_mask": tape.chance(1, 4),
             "dmask": tape.weighted([("FLEX", 6), ("partial", 3)]), "mbits": [tape.draw(4) == 0 for _ in range(160)],
             "npub": tape.rng_int(2, 3), "coef": [[tape.choice([0.0, 1.0, 7.0])] + [tape.choice([1.0, -2.0, 0.5, 10.0]) for _ in range(3)]
                                                  for _ in range(3)]}
@@ -126,27 +127,6 @@ def execute(sc):
     smask = smask_flat.reshape(sshape, order=sorder)
     dmask = dmask_flat.reshape(dshape, order=dorder)
     use_smask = sc["smask"] == "partial" and smask_flat.any()
-    out = Output(name="src", info=Info(time=dt(0), grid=GS, units="m", mask=smask if use_smask else Mask.FLEX))
-    inp = Input(name="dst", info=Info(time=dt(0), grid=GD, units="m", mask=dmask if sc["dmask"] == "partial" else Mask.FLEX))
-    if sc["method"] == "nearest":
-        ad = RegridNearest()
-    else:
-        ad = RegridLinear(fill_with_nearest=sc["method"] == "linear_fill")
-    out >> ad >> inp
-    inp.ping()
-    try:
-        inp.exchange_info()
-    except Exception as e:
-        # target mask not covered by the interpolation domain etc. are legitimate refusals of RegridLinear
-        if sc["method"] == "linear" and type(e).__name__ in ("FinamDataError", "FinamMetaDataError") and \
-                sc["dmask"] == "partial":
-            # without filling, the adapter's output mask is the set of targets outside the hull; an explicit
-            # target mask that differs is refused at connect (never a wrong value)
-            return {"violations": [], "digest": digest_of(sc), "nontrivial": False, "cls": "linear-domain-refused"}
-        if "QH" in str(e) or "Qhull" in type(e).__name__ or "qhull" in str(e).lower():
-            return {"violations": [], "digest": digest_of(sc), "nontrivial": False, "cls": "degenerate-hull"}
-        v("regrid-exception", type(e).__name__, f"connect failed: {type(e).__name__}: {str(e)[:300]}; {short(sc)}")
-        return res(sc, viol, nd, False)
     # hull classification of the target locations (linear only)
     keep = ~smask_flat
     src_pts = sl[keep]
@@ -160,6 +140,38 @@ def execute(sc):
             inside = np.where(ins.all(axis=1), 1, np.where(~ins.any(axis=1), 0, -1))    # 1 in, 0 out, -1 band
         except Exception:
             return {"violations": [], "digest": digest_of(sc), "nontrivial": False, "cls": "degenerate-hull"}
+    ctor_mask = bool(sc.get("ctor_mask"))
+    if ctor_mask:
+        # the target mask is given to the adapter itself; without filling it has to cover everything that is not
+        # strictly inside the hull of the unmasked source locations, plus the seeded extra cells
+        if sc["method"] == "linear":
+            dmask_flat = dmask_flat | (inside != 1)
+        if dmask_flat.all():
+            return {"violations": [], "digest": digest_of(sc), "nontrivial": False, "cls": "all-masked"}
+        dmask = dmask_flat.reshape(dshape, order=dorder)
+    out = Output(name="src", info=Info(time=dt(0), grid=GS, units="m", mask=smask if use_smask else Mask.FLEX))
+    cons_mask = Mask.FLEX if ctor_mask else (dmask if sc["dmask"] == "partial" else Mask.FLEX)
+    inp = Input(name="dst", info=Info(time=dt(0), grid=GD, units="m", mask=cons_mask))
+    kw = {"out_mask": dmask} if ctor_mask else {}
+    if sc["method"] == "nearest":
+        ad = RegridNearest(**kw)
+    else:
+        ad = RegridLinear(fill_with_nearest=sc["method"] == "linear_fill", **kw)
+    out >> ad >> inp
+    inp.ping()
+    try:
+        inp.exchange_info()
+    except Exception as e:
+        # target mask not covered by the interpolation domain etc. are legitimate refusals of RegridLinear
+        if sc["method"] == "linear" and type(e).__name__ in ("FinamDataError", "FinamMetaDataError") and \
+                sc["dmask"] == "partial" and not ctor_mask:
+            # without filling, the adapter's output mask is the set of targets outside the hull; an explicit
+            # target mask that differs is refused at connect (never a wrong value)
+            return {"violations": [], "digest": digest_of(sc), "nontrivial": False, "cls": "linear-domain-refused"}
+        if "QH" in str(e) or "Qhull" in type(e).__name__ or "qhull" in str(e).lower():
+            return {"violations": [], "digest": digest_of(sc), "nontrivial": False, "cls": "degenerate-hull"}
+        v("regrid-exception", type(e).__name__, f"connect failed: {type(e).__name__}: {str(e)[:300]}; {short(sc)}")
+        return res(sc, viol, nd, False)
     d2 = ((dl[:, None, :] - src_pts[None, :, :]) ** 2).sum(axis=2)
     dmin = d2.min(axis=1)
     for k in range(sc["npub"]):
@@ -184,7 +196,7 @@ def execute(sc):
             break
         gflat = np.ma.getdata(got[0]).reshape(-1, order=dorder)
         gmask = np.ma.getmaskarray(got[0]).reshape(-1, order=dorder)
-        if sc["dmask"] == "partial" and not np.array_equal(gmask | dmask_flat, gmask):
+        if (sc["dmask"] == "partial" or ctor_mask) and not np.array_equal(gmask | dmask_flat, gmask):
             v("regrid-target-mask", "unmasked", f"publication {k}: masked target cells came back unmasked; {short(sc)}")
             break
         leak = (~gmask) & (np.abs(gflat) > 1e20)
